@@ -170,23 +170,31 @@ def _ifmax(a, b):
     return SymReal(z3.If(b.e > a.e, b.e, a.e), False)
 
 
-def _min(v):
-    """min of non-NaN values as an If-chain (no forking)."""
+def _extremum(v, want_max):
+    """min/max of non-NaN values without forking: a fresh variable m with
+    the defining constraints  m <= v_i for all i  and  m == v_i for some i
+    (linear size; nested If-chains grow exponentially as trees)."""
     if not v:
         return NAN
-    m = v[0]
-    for e in v[1:]:
-        m = _ifmin(m, e)
-    return m
+    if len(v) == 1:
+        return const(v[0])
+    ctx = Ctx.cur
+    es = [const(e).e for e in v]
+    if len(v) == 2:
+        a, b = es
+        return SymReal(z3.If((b > a) if want_max else (b < a), b, a), False)
+    m = ctx.fresh('max' if want_max else 'min')
+    ctx.solver.add(z3.And([(m >= e) if want_max else (m <= e) for e in es]
+                          + [z3.Or([m == e for e in es])]))
+    return SymReal(m, False)
+
+
+def _min(v):
+    return _extremum(v, False)
 
 
 def _max(v):
-    if not v:
-        return NAN
-    m = v[0]
-    for e in v[1:]:
-        m = _ifmax(m, e)
-    return m
+    return _extremum(v, True)
 
 
 def _mean(v):
@@ -345,6 +353,49 @@ def sym_argmax(a):
     return idx[-1]
 
 
+def _sym_argext(a, want_max):
+    """argmin/argmax (first occurrence) for object arrays / masked object
+    arrays; masked and NaN elements are skipped."""
+    ctx = Ctx.cur
+    if isinstance(a, np.ma.MaskedArray):
+        m = np.ma.getmaskarray(a).ravel()
+        flat = list(np.asarray(a.data).ravel())
+    else:
+        flat = list(np.asarray(a).ravel())
+        m = np.zeros(len(flat), bool)
+    idx = [i for i, e in enumerate(flat) if not m[i] and not _elem_isnan(e)]
+    if not idx:
+        return 0
+    for n, k in enumerate(idx):
+        if n == len(idx) - 1:
+            return k
+        conds = []
+        for j in idx:
+            if j == k:
+                continue
+            if want_max:
+                c = (flat[k] > flat[j]) if j < k else (flat[k] >= flat[j])
+            else:
+                c = (flat[k] < flat[j]) if j < k else (flat[k] <= flat[j])
+            conds.append(c.e if isinstance(c, SymBool) else z3.BoolVal(
+                bool(c)))
+        if ctx.decide(z3.And(conds)):
+            return k
+    return idx[-1]
+
+
+def argmin(a, axis=None, *r, **k):
+    if isinstance(a, np.ndarray) and a.dtype == object and axis is None:
+        return _sym_argext(a, False)
+    return _orig['argmin'](a, axis, *r, **k)
+
+
+def argmax(a, axis=None, *r, **k):
+    if isinstance(a, np.ndarray) and a.dtype == object and axis is None:
+        return _sym_argext(a, True)
+    return _orig['argmax'](a, axis, *r, **k)
+
+
 class _UfuncProxy:
     """Callable that behaves like the facade function but forwards every
     other attribute (nin, nout, reduce, ...) to the original ufunc."""
@@ -399,6 +450,10 @@ def install():
             return a[..., 0, 0] * a[..., 1, 1] - a[..., 0, 1] * a[..., 1, 0]
         return _orig['det'](a)
     np.linalg.det = det
+    _orig['argmin'] = np.argmin
+    _orig['argmax'] = np.argmax
+    np.argmin = argmin
+    np.argmax = argmax
     _orig['min'] = np.min
     _orig['max'] = np.max
     np.min = np.amin = amin
